@@ -105,6 +105,11 @@ def run(prop, tier, seed, bins, plan, t0):
         for s in range(nshard):
             cmd = [bins['q'], k, '--seed', str(sd(k, 'native', s)), '--execs', '1000000', '--budget-s', str(budget)] + (['--thorough'] if thorough else [])
             jobs.append({'lane': 'native', 'kind': k, 'cmd': cmd, 'env': ENV_BASE, 'envdesc': '', 'timeout': budget + 120})
+        if k in ('spmc', 'spmcq'):
+            # address-reuse allocator (native only, see q/src/main.rs mod reuse): the ABA windows of the packed head word
+            for s in range(4 if thorough else 2):
+                cmd = [bins['q'], k, '--seed', str(sd(k, 'native-reuse', s)), '--execs', '1000000', '--budget-s', str(budget), '--reuse-alloc'] + (['--thorough'] if thorough else [])
+                jobs.append({'lane': 'native-reuse', 'kind': k, 'cmd': cmd, 'env': ENV_BASE, 'envdesc': '--reuse-alloc', 'timeout': budget + 120})
         for s in range(2 if thorough else 1):
             cmd = [bins['qasan'], k, '--seed', str(sd(k, 'asan', s)), '--execs', '1000000', '--budget-s', str(budget)] + (['--thorough'] if thorough else [])
             jobs.append({'lane': 'asan', 'kind': k, 'cmd': cmd, 'env': dict(ENV_BASE, ASAN_OPTIONS='detect_leaks=1:halt_on_error=1:exitcode=23'), 'envdesc': 'ASAN_OPTIONS=detect_leaks=1', 'timeout': budget + 120})
